@@ -299,3 +299,5 @@ Definition wide_step (mode : Z) (c : coin (list Z)) (o : op (list Z)) :=
   step (list Z) (wide_merge mode) (wide_merge_int mode) wide_dbytes c o.
 Definition wide_run (mode : Z) (c : coin (list Z)) (ops : list (op (list Z))) :=
   run (list Z) (wide_merge mode) (wide_merge_int mode) wide_dbytes c ops.
+Definition wide_grind (mode : Z) (fuel : nat) (c : coin (list Z)) (gf : Z) :=
+  grind (list Z) (wide_merge_int mode) wide_dbytes fuel c gf.
